@@ -336,7 +336,10 @@ def _case(rng, kind=None, fluxp=None, zerop=None, gridp=None, method='?', ivp=No
             fs.append(fr)
             ivs.append(ivr)
         c = {'kind': '2d', 'x': xs_, 'flux': fs, 'ivar': ivs}
-        ivp = 'varying'
+        if ivp == 'none' and zerop == 'none':
+            c['ivar'] = None          # stacked exposures without an inverse variance ("with and without inverse variance")
+        else:
+            ivp = 'varying'
         xs = sorted(v for r in xs_ for v in r)
         xs = [xs[0] + dx * j for j in range(int(round((xs[-1] - xs[0]) / dx)) + 1)]
     c['newx'] = _grid(rng, xs, dx, gridp)
@@ -1063,6 +1066,8 @@ def _directed(rng):
     for zp in ['none', 'singles', 'runs', 'ends', 'fewgood']:
         cases.append(_case(rng, kind='2d', zerop=zp))
     cases.append(_case(rng, kind='2d', fluxp='const'))
+    for fp in ('smooth', 'const', 'noisy'):
+        cases.append(_case(rng, kind='2d', fluxp=fp, zerop='none', ivp='none'))
     for _ in range(3):
         c = _case(rng, kind='2d', zerop='singles')
         cases.append(c)
